@@ -125,6 +125,55 @@ def normalize(check, prog, canon):
                       canon.show(body)[:200], canon.show(want)[:200]))
 
 
+def _view_step(t, raw):
+    """'transpose' for x.transpose(*raw.dims), 'pixels' for x.assign_coords(<the x,
+    y and z coordinates of raw>), else None: views that keep the numbers of x"""
+    if t[0] != 'call' or not isinstance(t[1], tuple) or t[1][0] != 'attr':
+        return None
+    if t[1][2] == 'transpose' and not t[3] and \
+            t[2] == (('star', ('attr', raw, 'dims')),):
+        return 'transpose'
+    if t[1][2] == 'sel' and not t[2] and len(t[3]) == 1 and \
+            t[3][0][0] == 'illumination' and t[3][0][1] in (
+                ('attr', raw, 'illumination'),
+                ('attr', ('attr', raw, 'illumination'), 'values'),
+                ('idx', raw, ('const', 'illumination')),
+                ('attr', ('idx', raw, ('const', 'illumination')), 'values')):
+        return 'channels'
+    if t[1][2] == 'assign_coords':
+        named = {}
+        if len(t[2]) == 1 and not t[3]:
+            d = t[2][0]
+            if d[0] == 'dict':
+                named = {k[1]: v for k, v in d[1] if k[0] == 'const'}
+            elif d[0] == 'comp' and d[1] == 'dict' and len(d[3]) == 1 and \
+                    d[3][0][1][0] == 'tuple':
+                el, seq, conds = d[3][0]
+                key, val = d[2][1]
+                only_dims = all(c == ('cmp', 'in', el, ('attr', raw, 'dims'))
+                                for c in conds)
+                if key == el and only_dims and val in (
+                        ('idx', raw, el), ('attr', ('idx', raw, el), 'values')):
+                    named = {c[1]: ('idx', raw, c) for c in seq[1] if c[0] == 'const'}
+        elif not t[2]:
+            named = dict(t[3])
+        good = set(named) == {'x', 'y', 'z'} and all(
+            v in (('idx', raw, ('const', k)), ('attr', raw, k),
+                  ('attr', ('idx', raw, ('const', k)), 'values'),
+                  ('attr', ('attr', raw, k), 'values')) for k, v in named.items())
+        return 'pixels' if good else None
+    return None
+
+
+def _unview(t, raw):
+    """t with every view step (see _view_step) replaced by the image viewed"""
+    if not isinstance(t, tuple):
+        return t
+    if t and isinstance(t[0], str) and _view_step(t, raw) is not None:
+        return _unview(t[1][1], raw)
+    return tuple(_unview(x, raw) for x in t)
+
+
 def bg_correct(check, prog, canon):
     q = IP + 'bg_correct'
     fd = prog.func(q)
@@ -152,8 +201,10 @@ def bg_correct(check, prog, canon):
             zf = calls_in(holo, IP + 'zero_filter')
             if zf and as_difference(zf[0][2][0]) is not None:
                 df = as_difference(zf[0][2][0])[1]
-                while df[0] == 'attr' and df[2] in ('values', 'data'):
-                    df = df[1]       # the bare numbers of the dark field
+                while (df[0] == 'attr' and df[2] in ('values', 'data')) or \
+                        _view_step(df, raw) is not None:
+                    # the bare numbers of the dark field
+                    df = df[1] if df[0] == 'attr' else df[1][1]
         mode = 'dark field given' if given else 'default dark field'
         if df is None:
             check.bad('T3-bg-correct', 'bg_correct [%s]' % mode,
@@ -173,6 +224,8 @@ def bg_correct(check, prog, canon):
             if t[0] == 'call' and t[1] in ('numpy.asarray', 'numpy.array') and \
                     len(t[2]) == 1 and not t[3]:
                 return bare(t[2][0])
+            if _view_step(t, raw) is not None:
+                return bare(t[1][1])
             return tuple(bare(x) if isinstance(x, tuple) else x for x in t)
         check.require(c0.equal(intern(bare(holo)), intern(bare(want))), 'T3-bg-correct',
                       'bg_correct [%s]' % mode,
@@ -188,30 +241,56 @@ def bg_correct(check, prog, canon):
         if given:
             imgs[df] = 'df'
 
-        def labelled(t):
-            """images whose coordinate labels the value of t carries"""
+        def pairing(t):
+            """how the value of t pairs with another image: (images it comes
+            from, 'labels of <image>' | 'bare' along the pixel axes, whether its
+            axes were put in raw's order)"""
             if t in imgs:
-                return {imgs[t]}
+                return {imgs[t]}, imgs[t], imgs[t] == 'raw'
             if not given and df is not None and t == df:
-                return {'raw'}           # zeros in a copy of raw: raw's labels
+                return {'raw'}, 'raw', True     # zeros in a copy of raw
             if t[0] == 'attr' and t[2] in ('values', 'data'):
-                return set()
-            if t[0] == 'call' and t[1] in ('numpy.asarray', 'numpy.array'):
-                return set()
+                who, _, al = pairing(t[1])
+                return who, 'bare', al
+            if t[0] == 'call' and t[1] in ('numpy.asarray', 'numpy.array') and t[2]:
+                who, _, al = pairing(t[2][0])
+                return who, 'bare', al
+            step = _view_step(t, raw)
+            if step is not None:
+                who, lab, al = pairing(t[1][1])
+                if step == 'transpose':
+                    return who, lab, (True if al is False else al)
+                if step == 'channels':
+                    return who, lab, ('channels' if al else al)
+                return who, ('raw' if lab != 'bare' else lab), al
             if t[0] == 'call' and t[1] == IP + 'zero_filter' and t[2]:
-                return labelled(t[2][0])
+                return pairing(t[2][0])
             if t[0] == 'bin':
-                return labelled(t[2]) | labelled(t[3])
+                a, b = pairing(t[2]), pairing(t[3])
+                if not a[0]:
+                    return b
+                if not b[0]:
+                    return a
+                lab = a[1] if a[1] != 'bare' else b[1]
+                return a[0] | b[0], lab, a[2] and b[2]
             if t[0] == 'un':
-                return labelled(t[2])
-            return set()
-        joins = []
+                return pairing(t[2])
+            return set(), 'bare', True
+        joins, crossed = [], []
 
         def walk(t):
             if t[0] == 'bin':
-                a, b = labelled(t[2]), labelled(t[3])
-                if a and b and a != b:
-                    joins.append((sorted(a), sorted(b), t))
+                a, b = pairing(t[2]), pairing(t[3])
+                if a[0] and b[0] and a[0] != b[0]:
+                    if a[1] != 'bare' and b[1] != 'bare' and a[1] != b[1]:
+                        joins.append((sorted(a[0]), sorted(b[0]), t))
+                    if ('bare', False) in ((a[1], a[2] == 'channels'),
+                                           (b[1], b[2] == 'channels')):
+                        # bare numbers pair every axis, the colour channels
+                        # included, by position
+                        crossed.append((sorted(a[0]), sorted(b[0]), t))
+                    elif not (a[2] and b[2]):
+                        pass     # labelled arrays broadcast by axis name
                 walk(t[2])
                 walk(t[3])
             elif t[0] == 'un':
@@ -228,8 +307,8 @@ def bg_correct(check, prog, canon):
         check.require(guard_has_coords or not joins, 'T3-bg-correct-pixelwise',
                       'bg_correct [%s]' % mode,
                       'images are combined pixel by pixel: no operation aligns two '
-                      'different images by their coordinate labels (or the guard '
-                      'compares the coordinates)', loc,
+                      'different images by the labels of their pixel axes (or the '
+                      'guard compares the coordinates)', loc,
                       fail_detail='%s joins the labelled images %s and %s: xarray '
                       'keeps only the coordinates they share -- a raw image cropped '
                       'with subimage and a pre-cropped background of the same shape '
@@ -237,6 +316,17 @@ def bg_correct(check, prog, canon):
                       'paired; a different z gives an empty one' % (
                           show(joins[0][2])[:80], joins[0][0], joins[0][1])
                       if joins else '')
+        check.require(not crossed, 'T3-bg-correct-channels-by-label',
+                      'bg_correct [%s]' % mode,
+                      'the images pair their axes by name and their colour channels '
+                      'by label: no image enters the arithmetic as bare numbers '
+                      '(unless first put on raw\'s axes and channels)', loc,
+                      fail_detail='%s combines %s with the bare numbers of %s: every '
+                      'axis is paired by position, so a background whose channels are '
+                      'stored in another order (or whose axes are transposed) is '
+                      'divided crosswise -- an image divided by itself is not 1' % (
+                          show(crossed[0][2])[:80], crossed[0][0], crossed[0][1])
+                      if crossed else '')
         if not given:
             root = df
             while root[0] == 'upd':
@@ -585,6 +675,14 @@ def center_priors_structure(check, prog):
                   '* z_range_extents)', loc, fail_detail=detail)
 
 
+def _rebase_noise(t, raw):
+    """update_metadata(x, noise_sd=<view of bg>.noise_sd) -> ... bg.noise_sd"""
+    if t[0] == 'call' and t[3]:
+        return intern((t[0], t[1], t[2], tuple(
+            (k, _unview(val, raw)) for k, val in t[3])))
+    return t
+
+
 def bg_correct_guards(check, prog):
     """bg_correct refuses exactly the mismatched inputs and fills in only a
     missing noise level."""
@@ -593,25 +691,42 @@ def bg_correct_guards(check, prog):
     fd = prog.func(q)
     loc = prog.loc(q, fd)
     raw, bg, df = [sym(a.arg) for a in fd.args.args[:3]]
-    it = Interp(prog, max_depth=1, opaque=[
+    def decide(t):
+        # (the default dark field is a copy of raw: same axes, shape and spacing)
+        if t == ('cmp', 'is', df, NONE):
+            return False
+        return None
+    it = Interp(prog, max_depth=1, decide=decide, opaque=[
         MD + 'copy_metadata', IP + 'zero_filter', MD + 'update_metadata',
         MD + 'get_spacing'])
     res = it.analyze(q)
-    ok = len(res.raises) == 1 and 'BadImage' in show(res.raises[0].value)
+    ok = bool(res.raises) and all('BadImage' in show(o.value) for o in res.raises)
     if ok:
-        cs = norm_cond(res.raises[0].cond)
-        ok = len(cs) == 1 and cs[0][1] is False
-        if ok:
-            t = cs[0][0]
-            eqs = [x for x in subterms(t) if x[0] == 'cmp' and x[1] == '==']
-            shapes = [x for x in eqs if any(y[0] == 'attr' and y[2] == 'shape'
-                                            for y in (x[2], x[3]))]
-            spac = [x for x in eqs if calls_in(x, MD + 'get_spacing')]
-            neg = [x for x in subterms(t) if x[0] == 'un' and x[1] == 'not'] + \
+        # each refusal is the failure of one conjunction of equalities (earlier
+        # ones having held); together they compare shape and spacing of all three
+        # images, and beyond those only the names of the axes
+        failing = []
+        for o in res.raises:
+            cs = norm_cond(o.cond)
+            ok = ok and bool(cs) and cs[-1][1] is False and all(
+                p is True for _, p in cs[:-1])
+            failing += [c for c, _ in cs]
+        tests = set(failing)
+        eqs, neg = [], []
+        for t in tests:
+            eqs += [x for x in subterms(t) if x[0] == 'cmp' and x[1] == '==']
+            neg += [x for x in subterms(t) if x[0] == 'un' and x[1] == 'not'] + \
                 [x for x in subterms(t) if x[0] == 'bool' and x[1] == 'or'] + \
                 [x for x in subterms(t) if x[0] == 'cmp' and x[1] == '!=']
-            ok = len(shapes) == 2 and len(spac) == 2 and not neg and \
-                len(eqs) == 4
+        eqs = list(dict.fromkeys(eqs))
+        shapes = [x for x in eqs if any(y[0] == 'attr' and y[2] == 'shape'
+                                        for y in (x[2], x[3]))]
+        spac = [x for x in eqs if calls_in(x, MD + 'get_spacing')]
+        axes = [x for x in eqs if all(
+            y[0] == 'call' and y[1] == 'set' and len(y[2]) == 1 and
+            y[2][0][0] == 'attr' and y[2][0][2] == 'dims' for y in (x[2], x[3]))]
+        ok = ok and len(shapes) == 2 and len(spac) == 2 and not neg and \
+            len(eqs) == 4 + len(axes)
     check.require(ok, 'T3-bg-correct', 'bg_correct refusal',
                   'BadImage iff the three images do not all share shape and spacing',
                   loc, fail_detail='raises under %s' % [
@@ -619,6 +734,11 @@ def bg_correct_guards(check, prog):
     v = res.ret
     ok = v[0] == 'ite' and v[1][0] == 'bool' and v[1][1] == 'and'
     if ok:
+        # (attributes are the same through a view of the background)
+        v = intern(('ite', ('bool', 'and', tuple(
+            ('call', 'hasattr', (_unview(c[2][0], raw), c[2][1]), ())
+            if c[0] == 'call' and c[1] == 'hasattr' and c[2] and c[2][0] != v[3]
+            else c for c in v[1][2])), _rebase_noise(v[2], raw), v[3]))
         plain = v[3]
         filled = v[2]
         conds = set(v[1][2])
